@@ -23,6 +23,8 @@ import VerylModel.Driver.Wide
 import VerylModel.Driver.ExprRef
 import VerylModel.Driver.Aig
 import VerylModel.Driver.Netlist
+import VerylModel.Driver.Swap
+import VerylModel.Driver.Reloc
 
 def main (args : List String) : IO UInt32 := do
   match args with
@@ -59,4 +61,6 @@ def main (args : List String) : IO UInt32 := do
   | ["aig"] => VerylModel.Driver.Aig.runAig; return 0
   | ["rewrite"] => VerylModel.Driver.Aig.runRewrite; return 0
   | ["netlist"] => VerylModel.Driver.Netlist.run; return 0
+  | ["swap"] => VerylModel.Driver.Swap.run; return 0
+  | ["reuse"] => VerylModel.Driver.Reloc.run; return 0
   | _ => IO.eprintln s!"vmodel: unknown domain {args}"; return 2
